@@ -383,7 +383,7 @@ PROPS["C01"] = {
     "bounds": "server certificate: every 44-byte end-entity string against every dialed id (and against the zero id for native replay), 0 or 1 intermediate; raw key lengths 31..=33, signature lengths 63..=65, 4-byte message, all bytes symbolic; client certificate: every 44-byte string, 0 or 1 intermediate",
     "out": "tls::name::{encode,decode} - decode uses str::split(\".\") (Two-Way string searcher) and encode uses format!, neither finishes under CBMC even for one concrete name (120 s) - so the TLS-name round trip is NOT decided "
            "(decode is replaced by a stub that returns the dialed id); end-entity lengths other than 44; the TLS handshake itself (rustls/noq), remote_id_from_noq_conn, connect_with_opts; Ed25519 (oracle)",
-    "stubs": [KEY_ORACLE, KEY_ALLVALID, SIG_ORACLE, BT, "iroh::tls::name::decode -> returns the dialed id chosen by the harness (the real decoder does not finish under CBMC)"],
+    "stubs": [KEY_ORACLE, KEY_ALLVALID, SIG_ORACLE, BT, "<ed25519_dalek::VerifyingKey as Verifier>::verify (non-strict) -> counting oracle with arbitrary verdict; the harness asserts it is never consulted", "iroh::tls::name::decode -> returns the dialed id chosen by the harness (the real decoder does not finish under CBMC)"],
     "assumptions": ["rustls verifies the handshake transcript signature through SignatureVerificationAlgorithm::verify_signature with the key of the presented raw-public-key certificate (rustls contract)",
                     "tls::name::decode(tls::name::encode(id)) == Some(id) (not decided here; covered by the repo's own unit tests)"],
     "harnesses": [
